@@ -63,6 +63,59 @@ func selection(c *mon.Ctx) {
 	})
 }
 
+// selectPlurality: the best class (same maxHeightPrevoted and height) is split over three to six
+// tips and the most common one has no majority (a plurality); the peers are listed in several random
+// orders, plus peers of lower classes in between.
+func selectPlurality(c *mon.Ctx) {
+	c.Cases("select-plurality", c.N(300, 6000), func(k *mon.Case) {
+		r := k.R
+		top := 2 + r.Intn(3) // votes of the most common tip
+		nOthers := 2 + r.Intn(4)
+		var s []tip
+		for i := 0; i < top; i++ {
+			s = append(s, tip{7, 3, 0})
+		}
+		rest := 0
+		for id := 1; id <= nOthers; id++ {
+			cnt := 1 + r.Intn(top-1+1)
+			if cnt >= top {
+				cnt = top - 1
+			}
+			if cnt < 1 {
+				cnt = 1
+			}
+			for j := 0; j < cnt; j++ {
+				s = append(s, tip{7, 3, byte(id)})
+			}
+			rest += cnt
+		}
+		for rest < top { // no majority: the others together hold at least as many votes
+			s = append(s, tip{7, 3, byte(1 + r.Intn(nOthers))})
+			rest++
+		}
+		for j := r.Intn(4); j > 0; j-- { // lower classes
+			s = append(s, tip{uint32(1 + r.Intn(7)), uint32(r.Intn(3)), byte(r.Intn(6))})
+		}
+		// keep the plurality strict: no other id may reach `top` votes in the best class
+		cnt := map[byte]int{}
+		for _, t := range s {
+			if t.h == 7 && t.mhp == 3 {
+				cnt[t.id]++
+			}
+		}
+		for id, n := range cnt {
+			if id != 0 && n >= top {
+				k.Count("plurality_case_skipped_tie", 1)
+				return
+			}
+		}
+		for p := 0; p < 4; p++ {
+			r.Shuffle(len(s), func(i, j int) { s[i], s[j] = s[j], s[i] })
+			checkSelection(k, append([]tip{}, s...), 6)
+		}
+	})
+}
+
 func checkSelection(k *mon.Case, s []tip, reps int) {
 	infos := make([]*lsync.NodeInfo, len(s))
 	for i, t := range s {
@@ -766,6 +819,7 @@ func main() {
 		ChildTimeoutQuick: 20 * time.Minute, ChildTimeoutThorough: 120 * time.Minute,
 	}, func(c *mon.Ctx) {
 		selection(c)
+		selectPlurality(c)
 		handlers(c)
 		convergence(c)
 		convergence3(c)
